@@ -16,6 +16,7 @@ Theorems (all over Model/Routing.lean applied to the tables regenerated from /re
   conns_invariant           … along every history of updates
   metadata_served_from_cache / metadata_autocreate_decision / metadata_autocreate_unknown / topicsToRefresh_spec / refreshDone_spec
                             roundTrip's metadata arm: served from the cache unless auto-creation meets an unknown topic; what it then waits for
+  layout_sources            makeLayout/makePartitions field copies (regenerated tables) agree with the model's
   parts_cover_splitters     every Splitter type of the source has a split model (regenerated table, decide)
   split_resources_partition / split_resources_target / split_brokers_cover   DescribeConfigs and ListGroups parts: every resource / broker exactly once, at the right broker
 -/
@@ -24,6 +25,8 @@ import KafkaVerif.Lemmas.Routing
 import KafkaVerif.Model.Discover
 import KafkaVerif.Model.Split
 import KafkaVerif.Model.RoundTrip
+import KafkaVerif.Spec.FieldMaps
+import KafkaVerif.Gen.Mappings
 
 namespace KV.Props.C12
 open KV.Routing KV.Gen.Routing
@@ -508,5 +511,18 @@ theorem refreshDone_spec (layout : Cluster) (expect : List String) :
   simp only [refreshDone, List.all_eq_true, Option.isSome_iff_exists]
 
 end roundtrip
+
+/-! ## regenerated field copies of makeLayout / makePartitions -/
+
+section fieldmaps
+open KV.Spec.FieldMaps KV.Gen.Mappings
+
+/-- makeLayout / makePartitions copy each routing-relevant field from the metadata field the model's `makeLayout`
+copies it from (tables regenerated from transport.go; tolerant to locals, see Spec/FieldMaps.lean) -/
+theorem layout_sources :
+    allAgree makeLayout_Broker layoutBroker = true ∧ allAgree makeLayout_Cluster layoutCluster = true ∧
+    allAgree makeLayout_Topic layoutTopic = true ∧ allAgree makePartitions_Partition layoutPartition = true := by decide
+
+end fieldmaps
 
 end KV.Props.C12
